@@ -37,21 +37,21 @@ fn main() {
     let known = Arc::new(ck.known().clone());
 
     let k = known.clone();
-    ck.run(Section::pbt("disk-cache-free-string-key", tier.pick(900, 90_000), disk::strkey_strategy, move |c| disk::check_strkey(c, &k)).shards(12));
+    ck.run(Section::pbt("disk-cache-free-string-key", tier.pick(4000, 400_000), disk::strkey_strategy, move |c| disk::check_strkey(c, &k)).shards(12));
     let k = known.clone();
-    ck.run(Section::pbt("disk-cache-typed-key-hostile-fields", tier.pick(700, 70_000), disk::typed_strategy, move |c| disk::check_typed(c, &k)).shards(12));
+    ck.run(Section::pbt("disk-cache-typed-key-hostile-fields", tier.pick(4000, 400_000), disk::typed_strategy, move |c| disk::check_typed(c, &k)).shards(12));
     let k = known.clone();
-    ck.run(Section::pbt("typed-key-injectivity", tier.pick(800, 80_000), disk::pair_strategy, move |c| disk::check_pair(c, &k)).shards(12));
+    ck.run(Section::pbt("typed-key-injectivity", tier.pick(4000, 400_000), disk::pair_strategy, move |c| disk::check_pair(c, &k)).shards(12));
     let k = known.clone();
-    ck.run(Section::pbt("protocol-cache", tier.pick(500, 50_000), proto::protocache_strategy, move |c| proto::check_protocache(c, &k)).shards(8));
+    ck.run(Section::pbt("protocol-cache", tier.pick(3000, 300_000), proto::protocache_strategy, move |c| proto::check_protocache(c, &k)).shards(8));
     let k = known.clone();
-    ck.run(Section::pbt("ribbit-query", tier.pick(500, 40_000), proto::query_strategy, move |c| proto::check_query(c, &k)).shards(12));
+    ck.run(Section::pbt("ribbit-query", tier.pick(3000, 200_000), proto::query_strategy, move |c| proto::check_query(c, &k)).shards(12));
     let k = known.clone();
-    ck.run(Section::pbt("cdn-client", tier.pick(700, 60_000), proto::cdn_strategy, move |c| proto::check_cdn(c, &k)).shards(12));
+    ck.run(Section::pbt("cdn-client", tier.pick(4000, 300_000), proto::cdn_strategy, move |c| proto::check_cdn(c, &k)).shards(12));
     let k = known.clone();
-    ck.run(Section::pbt("open-installation", tier.pick(500, 50_000), storage::install_strategy, move |c| storage::check_install(c, &k)).shards(8));
+    ck.run(Section::pbt("open-installation", tier.pick(3000, 300_000), storage::install_strategy, move |c| storage::check_install(c, &k)).shards(8));
     let k = known.clone();
-    ck.run(Section::pbt("fixed-width-path-builders", tier.pick(600, 60_000), storage::fixed_strategy, move |c| storage::check_fixed(c, &k)).shards(8));
+    ck.run(Section::pbt("fixed-width-path-builders", tier.pick(3000, 300_000), storage::fixed_strategy, move |c| storage::check_fixed(c, &k)).shards(8));
 
     let t = common::TIMEOUTS.load(Ordering::Relaxed);
     if t > 0 {
